@@ -55,3 +55,12 @@ def parse_note(text):
         out.append(digits_value(text[k:k + 2]))
         k += 2
     return out
+
+
+def seg_consistent(seg, idxs):
+    """fact about real segments (C17 contract of Segment.get/get_value): a position has no
+    value (None) exactly when it lies beyond the last element"""
+    for i in idxs:
+        if (seg.get_value(refdes2(i)) is None) != (len(seg) < i):
+            return False
+    return True
